@@ -8,17 +8,15 @@ import sys
 
 HERE = os.path.dirname(os.path.dirname(os.path.abspath(__file__)))
 
-CHECKS = {
-    # id: (category, technique, level text, level note, design ref)
-    "C12": ("exploration",
-            "Hypothesis property-based testing against an independent quadrature reference + metamorphic identities",
-            "Generated spectral densities/cells; every 2D integral is compared with an independent frequency-domain "
-            "quadrature, with quadrature of the object's own correlation(), with tiling/additivity identities, closed "
-            "forms and the imaginary-time kernel. Exploration within stated parameter ranges; no proof of absence.",
-            "Trusts scipy.integrate.quad at epsrel 1e-12 on few-oscillation pieces as the reference; tolerances are "
-            "100x the quadrature tolerance the library requests (calibrated).",
-            "DESIGN.md section 5 C12"),
-}
+sys.path.insert(0, HERE)
+
+
+def check_meta(pid):
+    """metadata is declared by the check module itself"""
+    import importlib
+    mod = importlib.import_module(f"checks.{pid.lower()}")
+    return (mod.LEVEL, mod.TECHNIQUE, mod.LEVEL_TEXT, mod.LEVEL_NOTE, f"DESIGN.md section 5 {pid}")
+
 
 NOT_YET = "check not implemented yet in this round of the build (planned in DESIGN.md section 5); not claimed"
 
@@ -30,8 +28,8 @@ def main():
     for p in props:
         pid = p["id"]
         mod = os.path.join(HERE, "checks", pid.lower() + ".py")
-        if pid in CHECKS and os.path.exists(mod):
-            cat, tech, text, note, ref = CHECKS[pid]
+        if os.path.exists(mod):
+            cat, tech, text, note, ref = check_meta(pid)
             checks.append({
                 "property_id": pid,
                 "quick_cmd": f"/venv/bin/python run.py {pid} --tier quick",
